@@ -18,8 +18,10 @@ Contents
                                  `sparseToSyms` (canonical string), `asymCond` (the weighted bound)
 * `klCheck`, `listedCheck`, `stabCircImplCheck`
                                — the Boolean obligations evaluated per code in the kernel
-* `runTab`, `codewordTab`, `pauliTab`, `innerA`, `weightEnum`
+* `runTab`, `codewordTab`, `pauliTab`
                                — the same `applyGate` / `pauliAct`, tabulated after every gate, for the driver
+                                 (`runTab_eq`, `codewordTab_eq`, `pauliTab_eq` in `NumqiProofs/QecTab.lean`)
+* `weightEnum`, `klLossL2`     — models of `quantum_weight_enumerator`, `knill_laflamme_loss`
 -/
 import NumqiModel.Scalar
 
@@ -372,6 +374,14 @@ def shapeCheck (c : Code) : Bool :=
 def klOne (gs sp : List MP) (p : MP) : Bool :=
   MP.force p fun p => gs.any (fun g => MP.acomm g p) || sp.any (fun s => s.x == p.x && s.z == p.z)
 
+/-- classification of one error against the generators: `a` anticommutes with one of them,
+`0..3` equals `i^e ·` (a product of generators), `F` neither (so `klOne = (klClass ≠ 'F')`, lemma `klOne_eq_klClass`) -/
+def klClass (gs sp : List MP) (p : MP) : Char :=
+  if gs.any (fun g => MP.acomm g p) then 'a' else
+  match sp.find? (fun s => s.x == p.x && s.z == p.z) with
+  | some s => "0123".toList.getD ((p.k + 4 - s.k % 4) % 4) '?'
+  | none => 'F'
+
 /-- Knill–Laflamme on the Pauli level: every error of weight `1..d-1` (model of `make_error_list`)
 anticommutes with some generator `S_j = U Z_j U†` or equals a product of generators up to a phase. -/
 def klCheck (c : Code) : Bool :=
@@ -431,9 +441,6 @@ def runTab (n : Nat) : List Gate → Array GInt → Array GInt
 
 def codewordTab (c : Code) (a : Nat) : Array GInt :=
   runTab c.n c.encode (tabulate c.n (basisVec (posOfIdx c.n a)))
-
-def innerA (a b : Array GInt) : GInt :=
-  (a.toList.zip b.toList).foldl (fun acc xy => acc + Conj.conj xy.1 * xy.2) 0
 
 def pauliTab (n : Nat) (p : MP) (a : Array GInt) : Array GInt :=
   tabulate n (pauliAct GInt.I p (ofArray a))
